@@ -23,6 +23,8 @@ pub struct RustDocument {
     pub(crate) soap_ports: Vec<Rc<SoapPort>>,
     pub(crate) soap_bindings: Vec<Rc<SoapBinding>>,
     pub(crate) soap_services: Vec<SoapService>,
+    /// names being resolved by a search of the XML tree (guards against definitions that refer to themselves)
+    pub(crate) lookups_in_progress: Vec<String>,
 }
 
 impl RustDocument {
@@ -60,6 +62,7 @@ impl RustDocument {
             soap_ports: Vec::new(),
             soap_bindings: Vec::new(),
             soap_services: Vec::new(),
+            lookups_in_progress: Vec::new(),
         }
     }
 
@@ -186,6 +189,18 @@ fn try_to_find_node_by_xml_name_in_xml_doc<'n>(
     _namespace: Option<&Namespace>,
     doc: &mut RustDocument,
 ) -> WriterResult<RustNode> {
+    // a definition that refers to itself, directly or through others, cannot be resolved by reading it again
+    if doc.lookups_in_progress.iter().any(|name| name == xml_name) {
+        return Err(WriterError::NodeNotFound(xml_name.to_string()));
+    }
+
+    doc.lookups_in_progress.push(xml_name.to_string());
+    let result = find_node_in_xml_doc(start_node, xml_name, doc);
+    doc.lookups_in_progress.pop();
+    result
+}
+
+fn find_node_in_xml_doc<'n>(start_node: &'n Node<'n, 'n>, xml_name: &str, doc: &mut RustDocument) -> WriterResult<RustNode> {
     // get to the root of the document from the start node
     let mut start_node = *start_node;
     while let Some(parent) = start_node.parent() {
